@@ -485,6 +485,19 @@ func checkWrap(c wrapCase) *vlib.Failure {
 		if f := rendered("Solexa.String()", func() string { return q.String() }, func(i int) byte { return q.QEncode(c.Offset + i) }, len(c.Scores)); f != nil {
 			return f
 		}
+		{
+			// a copy that is given another encoding and used does not change what the original writes
+			before := q.String()
+			cp := q.Copy().(*quality.Solexa)
+			cp.SetEncoding(alphabet.Encoding(c.Enc2))
+			_ = cp.String()
+			for i := range c.Scores {
+				cp.QEncode(c.Offset + i)
+			}
+			if after := q.String(); after != before {
+				return vlib.Failf("wrap-copy-shares", "Solexa.String() = %q; after a copy was set to %s and rendered it is %q", before, encNames[alphabet.Encoding(c.Enc2)], after)
+			}
+		}
 		if p < 1 {
 			pos := c.Offset + c.SetPos
 			q.SetE(pos, p)
@@ -556,6 +569,28 @@ func checkWrap(c wrapCase) *vlib.Failure {
 		return string(b)
 	}, func(i int) byte { return ls.QEncode(c.Offset + i) }, len(c.Scores)); f != nil {
 		return f
+	}
+	{
+		// a copy that is given another encoding and used does not change what the original writes
+		before := q.String()
+		cp := q.Copy().(*quality.Phred)
+		for _, enc := range []alphabet.Encoding{alphabet.Encoding(c.Enc2), alphabet.Solexa} {
+			cp.SetEncoding(enc)
+			_ = cp.String()
+			for i := range c.Scores {
+				cp.QEncode(c.Offset + i)
+			}
+			if after := q.String(); after != before {
+				return vlib.Failf("wrap-copy-shares", "Phred.String() under %s = %q; after a copy was set to %s and rendered it is %q", encNames[e], before, encNames[enc], after)
+			}
+			for i, s := range c.Scores {
+				if s >= lo && s <= hi {
+					if got := q.QDecode(q.QEncode(c.Offset + i)); got != alphabet.Qphred(s) {
+						return vlib.Failf("wrap-copy-shares", "Phred under %s, after a copy was set to %s and rendered: QDecode(QEncode(%d)) = %d want %d", encNames[e], encNames[enc], c.Offset+i, got, s)
+					}
+				}
+			}
+		}
 	}
 	// the same containers under another encoding
 	e2 := alphabet.Encoding(c.Enc2)
